@@ -65,7 +65,7 @@ class RestateSubtractionRule(BaseRule):
                 return _OP_SUBTRACTION_NEGATIVE_CONST
 
             if (
-                node.right is not None
+                isinstance(node.right, MultiplyExpression)
                 and isinstance(node.right.left, ConstantExpression)
                 and node.right.left.value is not None
             ):
